@@ -8,6 +8,7 @@ import (
 	_ "time/tzdata" // tz-database zones without depending on the host
 
 	"crypto"
+	"crypto/ecdsa"
 	"crypto/x509"
 	"encoding/base64"
 	"encoding/json"
@@ -283,6 +284,16 @@ func runSignSpec(r *Runner, s signSpec, idx int) {
 			sigLen = len(probe)
 			if probe == nil {
 				signs = false // the key type does not admit the declared algorithm
+			}
+			if s.local && s.format == "jws" {
+				// a local JWS signer signs inside golang-jwt, which insists that an EC key lies on the curve of the
+				// algorithm; go-cose and crypto/ecdsa itself (the remote signer of this harness) do not mind
+				if ek, ok := key.(*ecdsa.PrivateKey); ok {
+					want := map[string]int{"ES256": 256, "ES384": 384, "ES512": 521}[signAlg]
+					if want != 0 && ek.Curve.Params().BitSize != want {
+						signs = false
+					}
+				}
 			}
 		}
 		absSigner["signs"] = signs
